@@ -419,6 +419,9 @@ pub mod storage {
 }
 
 pub mod protocol {
+    pub mod resp {
+        pub enum RespFrame { BulkString(Option<Vec<u8>>), Integer(i64) }
+    }
     pub mod parser {
         pub fn short_bad_starts_with(data: &[u8], hdr: usize, len: usize) -> Result<Option<usize>, String> {
             let end = hdr + len;
@@ -628,5 +631,93 @@ pub mod b11 {
         let mut out = Vec::new();
         for i in s..=e { if i < ids.len() { out.push(ids[i]); } }
         out
+    }
+}
+
+// ---- twins for the rules of batch 13 ---------------------------------------------------------------
+pub mod b13 {
+    use std::collections::{HashMap, VecDeque};
+    use std::time::Instant;
+    pub struct BlockedClient { pub conn_id: u64, pub deadline: Option<Instant> }
+    pub struct Reg { pub blocked_on_key: HashMap<Vec<u8>, VecDeque<BlockedClient>> }
+    impl Reg {
+        // which entries leave the queues is decided by the deadline alone
+        pub fn ea_bad_skip_collected(&mut self, now: Instant) -> Vec<u64> {
+            let mut expired = Vec::new();
+            for (_key, clients) in self.blocked_on_key.iter_mut() {
+                let mut idx = Vec::new();
+                for (i, c) in clients.iter().enumerate() {
+                    if let Some(d) = c.deadline {
+                        if now >= d && !expired.contains(&c.conn_id) { idx.push(i); }
+                    }
+                }
+                for i in idx.iter().rev() {
+                    if let Some(c) = clients.remove(*i) { expired.push(c.conn_id); }
+                }
+            }
+            expired
+        }
+        pub fn ea_ok_report_once(&mut self, now: Instant) -> Vec<u64> {
+            let mut expired: Vec<u64> = Vec::new();
+            for (_key, clients) in self.blocked_on_key.iter_mut() {
+                let mut idx = Vec::new();
+                for (i, c) in clients.iter().enumerate() {
+                    if let Some(d) = c.deadline {
+                        if now >= d { idx.push(i); }
+                    }
+                }
+                for i in idx.iter().rev() {
+                    if let Some(c) = clients.remove(*i) {
+                        if !expired.contains(&c.conn_id) { expired.push(c.conn_id); }
+                    }
+                }
+            }
+            expired
+        }
+        pub fn ea_bad_retain_predicate(&mut self, now: Instant) -> Vec<u64> {
+            let mut expired: Vec<u64> = Vec::new();
+            for (_key, clients) in self.blocked_on_key.iter_mut() {
+                clients.retain(|c| {
+                    let gone = matches!(c.deadline, Some(d) if now >= d) && !expired.contains(&c.conn_id);
+                    if gone { expired.push(c.conn_id); }
+                    !gone
+                });
+            }
+            expired
+        }
+    }
+    // arguments are applied in the order given
+    use crate::protocol::resp::RespFrame;
+    pub struct Store;
+    impl Store { pub fn zadd(&self, _m: Vec<u8>, _s: f64) -> bool { true } }
+    fn pair_of(parts: &[RespFrame], i: usize) -> Option<(f64, Vec<u8>)> {
+        match (&parts[i], &parts[i + 1]) {
+            (RespFrame::BulkString(Some(s)), RespFrame::BulkString(Some(m))) => Some((std::str::from_utf8(s).ok()?.parse().ok()?, m.clone())),
+            _ => None,
+        }
+    }
+    pub fn ao_bad_sorted_pairs(st: &Store, parts: &[RespFrame]) -> usize {
+        let mut pairs = Vec::new();
+        let mut i = 1;
+        while i + 1 < parts.len() { if let Some(p) = pair_of(parts, i) { pairs.push(p); } i += 2; }
+        pairs.sort_by(|a, b| a.0.total_cmp(&b.0));
+        let mut n = 0;
+        for (s, m) in pairs { if st.zadd(m, s) { n += 1; } }
+        n
+    }
+    pub fn ao_ok_in_order(st: &Store, parts: &[RespFrame]) -> usize {
+        let mut pairs = Vec::new();
+        let mut i = 1;
+        while i + 1 < parts.len() { if let Some(p) = pair_of(parts, i) { pairs.push(p); } i += 2; }
+        let mut n = 0;
+        for (s, m) in pairs { if st.zadd(m, s) { n += 1; } }
+        n
+    }
+    pub fn ao_ok_sorts_something_else(st: &Store, parts: &[RespFrame], mut seen: Vec<(u64, u64)>) -> usize {
+        seen.sort();
+        let mut n = 0;
+        let mut i = 1;
+        while i + 1 < parts.len() { if let Some((s, m)) = pair_of(parts, i) { if st.zadd(m, s) { n += 1; } } i += 2; }
+        n + seen.len()
     }
 }
